@@ -25,7 +25,7 @@ def iota (n : Nat) : Array Int := Array.ofFn (n := n) fun i => (i.val : Int)
 structure QuickFind where
   count : Int
   id : Array Int
-  deriving Repr
+  deriving Repr, DecidableEq
 
 namespace QuickFind
 
@@ -87,7 +87,7 @@ def findLoop (root : Array Int) : Nat → Int → Outcome Int
 structure QuickUnion where
   count : Int
   root : Array Int
-  deriving Repr
+  deriving Repr, DecidableEq
 
 namespace QuickUnion
 
@@ -132,7 +132,7 @@ structure Weighted where
   count : Int
   root : Array Int
   size : Array Int
-  deriving Repr
+  deriving Repr, DecidableEq
 
 namespace Weighted
 
